@@ -840,6 +840,20 @@ func genC04tcpclmsg(o *Out, r *Rng, thorough bool) {
 				add(f.name, m[:f.off+f.width])                              // nothing behind the field
 				add(f.name, append(append([]byte{}, m...), r.Bytes(40)...)) // some bytes, fewer than claimed
 			}
+			// multiplicative-overflow probes (c04probes.go) for the width of the field; a wrapped product is
+			// small, so bytes have to follow for a faulty guard to pass
+			tail := r.Bytes(40)
+			for _, sv := range mulOverflowProbes(uint(8*f.width), true) {
+				m := append([]byte{}, enc...)
+				if !tmsgPutBE(m, f.off, f.width, sv) {
+					continue
+				}
+				add(f.name, append(append([]byte{}, m...), tail...))
+				if thorough {
+					add(f.name, m)
+					add(f.name, m[:f.off+f.width])
+				}
+			}
 		}
 		// with extension items really present (decoders skip them)
 		if v.kind == "sess_init" {
